@@ -85,7 +85,8 @@ BARE_HOLES = [
     ('bare_project_name', 'Project § {\n}\nTableGroup § {\n}\nNote § {\n \'x\'\n}\nEnum § {\n §\n}\n', False),
 ]
 BARE = ['1', '0', '007', '1.5', '0.0', 'true', 'false', 'True', 'null', 'NULL', '#fff', '#aabbcc', '`x`', '``', 'x', 'cascade', 'btree',
-        "'s'", '"d"', "'''t'''", '-1', '1e5', '.5', '1.', 'pk', 'unique', 'not null', 'note', '(1)', '[1]', '{1}', '1, 2', "'a' 'b'", '']
+        "'s'", '"d"', "'''t'''", '-1', '1e5', '.5', '1.', 'pk', 'unique', 'not null', 'note', '(1)', '[1]', '{1}', '1, 2', "'a' 'b'", '',
+        '1' * 4301, '9' * 5000 + '.5', '1' * 400 + '.25', '0' * 5000, '1.' + '0' * 5000, '\u0661\u0662', '\uff11']     # numbers beyond what int() / float() convert
 
 TOKENS = [
     'Table', 'table', 'TABLE', 'Enum', 'enum', 'Ref', 'ref', 'ref:', 'Ref:', 'TableGroup', 'tablegroup',
